@@ -40,6 +40,11 @@ class C05(ProgramProperty):
     def budget(self, tier):
         return 1200 if tier == "quick" else 30000
 
+    def exhaustive(self, tier):
+        from .. import smallscope
+
+        return smallscope.run_histories(tier)
+
     def gen(self, rng, tier):
         delim = rng.choice([":", ":", "/", "::"])
         start = gen.records(rng, delim, nrec=rng.choice([0, 1, 2, 3, 4]), forbid_delim=False) if rng.random() < 0.9 else []
